@@ -43,22 +43,31 @@ def gen_cases(seed, tier):
         spec = gen.random_spec(rng, smin=2, smax=40 if tier == "quick" else 60)
         if rng.random() < 0.15:
             spec["S"] = int(rng.choice([65, 70, 97, 129]))
+        if rng.random() < 0.12:
+            spec["structure"] = "dag"       # finite-horizon class (used below with gamma a hair below one)
+            if spec["E"] < 2:
+                spec["E"] = 2
+        if rng.random() < 0.08 and not spec.get("intrew"):
+            spec["scale"] = float(rng.choice([1e-12, 1e-9]))     # rewards in very small units (any scale is allowed)
         init_mag = {"none": 0, "const": 12, "random": 4, "far": 4100}[spec["init"]] * spec["scale"]
         g, eps, rel = common.draw_gamma_eps(rng, spec["scale"], init_mag, max_sweeps)
         if spec["structure"] == "dag" and rng.random() < 0.6:
             # finite-horizon problems converge within n_states sweeps whatever gamma is: discount factors a
             # hair below one, where the threshold eps*(1-g)/g is 5-9 decades below eps
             g = float(rng.choice([0.99999, 0.999995, 1 - 1e-7]))
-            rel = float(10.0 ** rng.uniform(-4, 0))
+            spec["init"] = "none"       # a non-zero initial value of the absorbing sink would decay at rate gamma only
+            rel = float(10.0 ** rng.uniform(-2.5, 0.5))
             eps = rel * spec["scale"]
         S = spec["S"]
         dev = int(rng.choice(devs))
         for (sv, test) in COMBOS:
-            c = dict(kind="gen", spec=spec, solver=sv, test=test, gamma=g, epsilon=eps, eps_rel=rel,
+            c = dict(kind="gen", spec=spec, solver=sv, test=test, gamma=g, epsilon=eps, eps_rel=rel, tier=tier,
                      max_batch_size=common.batch_choices(rng, S), devices=dev)
             if sv == "pi":
                 u = rng.random()
                 c["max_eval_iter"] = AMPLE if u < 0.8 else (100 if u < 0.9 else int(rng.integers(1, 6)))
+                if g > 0.9999:
+                    c["max_eval_iter"] = AMPLE      # finite-horizon problems: evaluation is exact after n_states sweeps
                 c["reset"] = bool(rng.integers(0, 2))
                 # self-consistent warm start: a (generally suboptimal) incumbent policy together with its
                 # own exact value function, or a constant-reward incumbent with zero values - the very
@@ -142,9 +151,10 @@ def run_case(case):
     init_mag = float(np.abs(np.asarray(s.values)).max())
     D = 2.0 * (np.abs(R).max() / (1.0 - g) + init_mag) + 1e-300
     need = common.sweeps_needed(g, thr, D)
-    cap = 1000 if sv == "pi" else min(40000, need + 50)
+    hard = 40000 if case.get("tier") == "thorough" else 6000
+    cap = (1000 if case.get("tier") == "thorough" else 150) if sv == "pi" else min(hard, need + 50)
     if sv == "sa":
-        cap = min(40000, 2 * need + 50)
+        cap = min(hard, 2 * need + 50)
     if struct.startswith("dag") and sv != "pi":
         cap = 4 * S + 50
     res = target.solve(s, cap)
@@ -161,9 +171,10 @@ def run_case(case):
                            f"(state {int(np.argmax(pidx < 0)) if len(pidx) == S else 'len ' + str(len(pidx))})")
     vs, _, resid = refmdp.vstar(P, R, g)
     vmag = float(np.abs(vs).max())
-    slack = 1e-9 * (1.0 + vmag + scale)
-    if resid > slack:
+    slack = 1e-9 * (vmag + scale) + 1e-300        # relative: rewards may be of any scale, also 1e-12
+    if resid > 1e-6 * (vmag + scale):
         return dict(status="skip", reason="ill_conditioned_reference")
+    slack = max(slack, 10.0 * resid)      # the reference itself is only this accurate (gamma a hair below 1)
     vp = refmdp.evalpi(P, R, pidx, g)
     gap = float(np.max(vs - vp))
     pb, vb, vref = bounds(sv, test, eps, g)
